@@ -47,25 +47,28 @@ def exitingExits (H : Hier) (c : Name) (sub : List Name) : M (List Name × List 
     pure (exiting, acc.2 ++ out)) ([], [])
   pure (sortNames (dedup exiting), sortNames (dedup exits))
 
+/-- The work-list loop of `is_reachable_dfs`; the stack is kept with its top (Python's list end)
+    at the head, so `extend(xs)` is `xs.reverse ++ stack`. -/
+def reachGo (succ : Name → List Name) (end_ : Name) : Nat → List Name → List Name → M Bool
+  | 0, _, _ => .error ⟨"OutOfFuel", "is_reachable_dfs"⟩
+  | _ + 1, [], _ => .ok false
+  | f + 1, blk :: stack, seen =>
+    if seen.contains blk then reachGo succ end_ f stack seen
+    else if blk == end_ then .ok true
+    else reachGo succ end_ f ((succ blk).reverse ++ stack) (blk :: seen)
+
+/-- successors the loop follows from a name: its `jump_targets` if it is in the graph -/
+def succIn' (H : Hier) (c : Name) (n : Name) : List Name :=
+  match H.getIn? c n with
+  | some x => x.jt
+  | none => []
+
 /-- `is_reachable_dfs(begin, end)` on container `c`. -/
 def reachDfs (H : Hier) (c : Name) (begin end_ : Name) : M Bool := do
   let b ← getIn "is_reachable_dfs" H c begin
-  let rec go : Nat → List Name → List Name → M Bool
-    | 0, _, _ => .error ⟨"OutOfFuel", "is_reachable_dfs"⟩
-    | _ + 1, [], _ => .ok false
-    | f + 1, stack, seen =>
-      -- `to_vist.pop()` takes the LAST element
-      let blk := stack.getLast!
-      let stack' := stack.dropLast
-      if mem seen blk then go f stack' seen
-      else if blk == end_ then .ok true
-      else
-        let ext := match H.getIn? c blk with
-          | some x => x.jt
-          | none => []
-        go f (stack' ++ ext) (blk :: seen)
   let lvl := H.level c
-  go ((lvl.foldl (fun n x => n + x.jts.length) 0) + lvl.length + b.jts.length + 4) b.jt []
+  reachGo (succIn' H c) end_
+    ((lvl.foldl (fun n x => n + x.jts.length) 0) + lvl.length + b.jts.length + 4) b.jt.reverse []
 
 /-! ## Tarjan (networkx_vendored/scc.py), literally -/
 
@@ -140,30 +143,38 @@ def SetMap.set (m : SetMap) (k : Name) (v : List Name) : SetMap :=
 
 def inter (a b : List Name) : List Name := a.filter (mem b)
 
-/-- `_find_dominators_internal(entries, nodes, preds_table, succs_table)` -/
-def domsInternal (entries nodes : List Name) (preds succs : Name → List Name) : M SetMap := do
-  if entries.isEmpty then throw ⟨"RuntimeError", "_find_dominators_internal"⟩
-  let doms0 : SetMap := nodes.map fun n => if mem entries n then (n, [n]) else (n, nodes)
-  let todo0 := nodes.filter fun n => !mem entries n
-  let rec go : Nat → List Name → SetMap → M SetMap
-    | 0, _, _ => .error ⟨"OutOfFuel", "_find_dominators_internal"⟩
-    | _ + 1, [], d => .ok d
-    | f + 1, todo, d =>
-      let n := todo.getLast!
+/-- `{n} | reduce(intersection, [doms[p] for p in preds])` -/
+def newDomsOf (d : SetMap) (preds : Name → List Name) (n : Name) : List Name :=
+  match preds n with
+  | [] => [n]
+  | p :: rest => dedup (n :: rest.foldl (fun acc q => inter acc (d.get q)) (d.get p))
+
+/-- set equality of two duplicate-free lists, as the code's `!=` on sets -/
+def sameSetL (a b : List Name) : Bool := a.length == b.length && a.all (mem b)
+
+/-- the work-list loop of `_find_dominators_internal` (top of the Python list = last element) -/
+def domsGo (entries : List Name) (preds succs : Name → List Name) : Nat → List Name → SetMap → M SetMap
+  | 0, _, _ => .error ⟨"OutOfFuel", "_find_dominators_internal"⟩
+  | f + 1, todo, d =>
+    match todo.getLast? with
+    | none => .ok d
+    | some n =>
       let todo' := todo.dropLast
-      if mem entries n then go f todo' d
+      if mem entries n then domsGo entries preds succs f todo' d
       else
-        let ps := preds n
-        let newDoms :=
-          match ps with
-          | [] => [n]
-          | p :: rest => dedup (n :: rest.foldl (fun acc q => inter acc (d.get q)) (d.get p))
+        let newDoms := newDomsOf d preds n
         let old := d.get n
-        let same := newDoms.length == old.length && newDoms.all (mem old)
-        if same then go f todo' d
+        if sameSetL newDoms old then domsGo entries preds succs f todo' d
         else if !(newDoms.length < old.length) then .error (assertionAt "_find_dominators_internal")
-        else go f (todo' ++ succs n) (d.set n newDoms)
-  go (nodes.length * nodes.length * (nodes.length + 2) + 16) todo0 doms0
+        else domsGo entries preds succs f (todo' ++ succs n) (d.set n newDoms)
+
+/-- `_find_dominators_internal(entries, nodes, preds_table, succs_table)` -/
+def domsInternal (entries nodes : List Name) (preds succs : Name → List Name) : M SetMap :=
+  if entries.isEmpty then .error ⟨"RuntimeError", "_find_dominators_internal"⟩
+  else
+    let doms0 : SetMap := nodes.map fun n => if mem entries n then (n, [n]) else (n, nodes)
+    let todo0 := nodes.filter fun n => !mem entries n
+    domsGo entries preds succs (nodes.length * nodes.length * (nodes.length + 2) + 16) todo0 doms0
 
 def inLevelSuccs (lvl : List Blk) (n : Name) : List Name := dedup (succIn lvl n)
 def inLevelPreds (lvl : List Blk) (n : Name) : List Name :=
